@@ -18,6 +18,11 @@ revision into one table that the object loader consults. Decided:
  R5 recovery scan: headers are sorted by offset before every successful return; the
     latest-wins helper inserts unconditionally while iterating forwards and never overrides an
     occupied slot.
+ R6 the object cache is filled only for the object that was asked for: every insertion into the reader's object cache uses as key
+    the (number, generation) parameters of the function doing the load — whose caller went through the merged cross-reference
+    table — or happens in one of the enumerated recovery routines that synthesise objects. Publishing other objects as a side
+    effect (e.g. all members of an object stream) bypasses the newest-revision decision: a member that a later revision
+    redefined or freed is then served from the cache.
 Not decided: the resolved *values* for a given file; agreement with qpdf.
 """
 from .. import lib as L
@@ -31,6 +36,7 @@ HS = "std::collections::HashSet::<T, S, A>::"
 
 
 def run(ctx):
+    r6_cache_fill(ctx)
     facts = ctx.facts
     fid = X + "parse_with_incremental_updates_options"
     fn = ctx.fn(fid, "anchor")
@@ -342,3 +348,72 @@ def run(ctx):
                               "cross-reference section", lw.where(b))
             else:
                 ctx.ok("R5", "latest-wins:never-overrides", "add dominated by !entries.contains_key", lw.where(b))
+
+
+CACHE_SYNTH_ALLOW = {
+    "catalog": "recovery: caches the catalog found by scanning when /Root cannot be resolved",
+    "create_hierarchical_pages_tree": "recovery: synthetic /Pages nodes under reserved object numbers",
+    "create_synthetic_pages_dict": "recovery: synthetic /Pages dictionary under a reserved object number",
+}
+
+
+def r6_cache_fill(ctx):
+    from .. import flow as FL
+    facts = ctx.facts
+    n = 0
+
+    def value_roots(fn, fl, op, depth=8):
+        """locals an operand's *value* comes from, following copies, tuple construction and derefs of plain refs only"""
+        out, work, seen = set(), [l for l in FL.op_locals(op)], set()
+        while work and depth > 0:
+            depth -= 1
+            nxt = []
+            for l in work:
+                if l in seen:
+                    continue
+                seen.add(l)
+                ds = [d for d in fl.defs.get(l, ()) if d[0] == "stmt"]
+                if not ds or any(d[0] in ("call", "arg") for d in fl.defs.get(l, ())):
+                    out.add(l)
+                    continue
+                for d in ds:
+                    rv = fn.blocks[d[1]][0][d[2]][2]
+                    if rv[0] in ("use", "cast", "agg", "ref"):
+                        ls = FL.rvalue_locals(rv)
+                        if ls:
+                            nxt += ls
+                        else:
+                            out.add(l)
+                    else:
+                        out.add(l)
+            work = nxt
+        return out | set(work)
+    ords = {}
+    for k, fn in sorted(facts.fns.items()):
+        if not k.startswith("parser::reader::"):
+            continue
+        fl = None
+        for b, c, a, d, t, u in fn.calls():
+            if not (isinstance(c, dict) and L.is_call_to(c, ["insert", "entry"]) and "HashMap" in (c.get("p") or "")):
+                continue
+            r = L.recv_of(fn, a)
+            if not r or r[1][-1:] != ["object_cache"]:
+                continue
+            fl = fl or FL.flow(fn)
+            n += 1
+            owner = L.short(fn.parent or fn.id)
+            ords[owner] = ords.get(owner, 0) + 1
+            key = "object_cache-write:%s#%d" % (owner, ords[owner])
+            roots = value_roots(fn, fl, a[1])
+            params = [x for x in roots if 2 <= x <= fn.nargs and fn.locals[x] in ("u32", "u16")]
+            foreign = [x for x in roots if not (1 <= x <= fn.nargs) and fn.locals[x] not in ("u32", "u16", "(u32, u16)")]
+            if params and not foreign:
+                ctx.ok("R6", key, "key = the (number, generation) this function was asked to load", fn.where(b))
+            elif owner in CACHE_SYNTH_ALLOW:
+                ctx.ok("R6", key, "reviewed: " + CACHE_SYNTH_ALLOW[owner], fn.where(b))
+            else:
+                ctx.violation("R6", key, "%s inserts into the object cache under a key that is not the (number, generation) it was asked "
+                              "to load (the key comes from %s): objects are published without going through the merged cross-reference "
+                              "table, so an object-stream member that a newer revision redefined or freed is served from the cache as "
+                              "if it were current" % (owner, sorted(set(fn.locals[x][:40] for x in foreign)) or "elsewhere"), fn.where(b))
+    ctx.floor("R6", "writes to the reader's object cache", n, 10)
